@@ -24,13 +24,14 @@ var props = map[string]propCfg{
 		},
 	},
 	"C10": {
-		Modules: []string{"pkg/frt"},
+		Modules: []string{"pkg/frt", "fc"},
 		Decided: []string{
 			"OpEqual never panics and returns struct_eq (nil slice == empty slice, field-name capitalisation irrelevant), OpNotEqual is its negation - proved from the options actually passed to cmp.Equal against the ASSUMED contract of go-cmp (specs/externals.spec)",
 			"reflexivity, symmetry and transitivity are properties of the specification function struct_eq (axioms of the spec), carried over to OpEqual by result == struct_eq",
 		},
 		NotDecided: []string{"that go-cmp itself satisfies the assumed contract: validated only by the bounded differential run of the thorough tier (labelled bounded)"},
 		Bounded:    []func(*run){boundedOpEqual},
+		Scans:      []func(*run){scanBinOpTable},
 	},
 	"C16": {
 		Modules: []string{"fc", "pkg/sys"},
@@ -73,5 +74,16 @@ var props = map[string]propCfg{
 			"exaustiveCheck(ttype, arms): when ttype is a union, it panics (the diagnostic path) if and only if the union's info is missing or some case of the union is named by no arm - for unions of any size, any arm order, duplicate arms, arms naming unknown cases",
 		},
 		NotDecided: []string{"that parseURules routes every default-less match through exaustiveCheck and that a match whose target is not yet known to be a union never reaches it (read, not proved)", "the emitted 'never reached' panic being unreachable in accepted programs (a C01-level consequence)"},
+	},
+	"C08": {
+		Modules: []string{"fc"},
+		Decided: []string{
+			"the operator table is exactly the published one (scan of the binOpMap literal: 13 operators, group order, equal rank inside a group, Go spellings, = and <> through frt.OpEqual / frt.OpNotEqual; never written)",
+			"every node the binary-operator factory builds has the accumulated expression as its left and the new operand as its right operand (newBinOpCall, newBinOpNormal, newEqNeq, newPipeCall*), and newBinOpCall is called only from parseBinAfter with (cur, rhs)",
+			"a binary node is always emitted parenthesised with its operands in order (binOpToGo), so the grouping of the tree is the parenthesisation of the output",
+			"precedence climbing for chains of ANY length (parseBinAfter / parseExprWithPrec / parseExpr, ghost ranks + ghost flag wg): every node is built with rank(left) >= rank(op) and rank(right) > rank(op) - the published table with left association -, each call returns an expression of rank >= its minimum and stops before an operator of rank >= its minimum; recursion and the function-typed parameter are discharged modularly (the function's own contract is the induction hypothesis)",
+		},
+		NotDecided: []string{"that operands appear in source order without loss (needs a token-list ghost); application binds tighter / prefix not applies to the following application (parseTerm, parseAtomList are abstract operands of rank 100 here)"},
+		Scans: []func(*run){scanBinOpTable, scanBinOpCallSites},
 	},
 }
